@@ -147,16 +147,60 @@ def name_worker(item):
     return acc
 
 
+def arbitration_worker(item):
+    """the comparison the address arbitration really uses: a real operational CA with NAME a (built from fields) receives an
+    address-claimed frame for its address carrying NAME b (8 bytes): it must keep the address iff a < b as 64-bit values"""
+    from .. import rt
+    from ..net import Bus, Stack
+    _k, mine, others, seed = item
+    acc = Acc()
+    sc = {'kind': 'arbitration'}
+    CA = j1939.ControllerApplication
+    for a in mine:
+        fa = {k: x for k, x in R.name_fields(a).items() if k != 'reserved_bit'}
+        fa['arbitrary_address_capable'] = 0
+        ea = R.name_value(fa)
+        for b in others:
+            eb = b & ~(1 << 48)
+            if ea == eb:
+                continue
+            w = rt.World()
+            rt.activate(w)
+            try:
+                bus = Bus(w, base_lat=1e-4)
+                st = Stack(bus, 'X')
+                ca = CA(Name(**fa), 0x20)
+                st.ecu.add_ca(controller_application=ca)
+                w.run_for(0.002)
+                ca.start(claim_delay=0.0)
+                w.run_for(0.002)
+                bus.ghost_node().send((6 << 26) | (0xEE << 16) | (0xFF << 8) | 0x20, bytes(R.name_bytes(eb)))
+                w.run_for(0.002)
+                kept = ca.state == CA.State.NORMAL and ca.device_address == 0x20
+                acc.case(('arb', ea, eb), outcome=(kept,))
+                if kept != (ea < eb):
+                    acc.violation("address arbitration does not compare the 64-bit NAME values", sc, None,
+                                  "value=%016X (own) vs %016X (contender): %s" % (ea, eb, 'kept the address' if kept else 'gave the address up'))
+                    return acc
+            finally:
+                w.shutdown()
+    acc.sample({'kind': 'arbitration', 'own': '%016X' % mine[0], 'contender': '%016X' % others[-1]})
+    return acc
+
+
 def worker(item):
     if item[0] in ('all_ids', 'all_pgns', 'all_prio_sa'):
         return id_worker(item)
+    if item[0] == 'arbitration':
+        return arbitration_worker(item)
     return name_worker(item)
 
 
 RULE = ("identifier: quick = all 2^18 PGN values x 4 priorities x 8 source addresses + all 8x256 priority/source pairs "
         "x 13 boundary PGNs, thorough = all 2^29 identifiers; NAME: every value of every field up to 11 bits (21-bit "
         "field: 520 values incl. boundaries) over 5 backgrounds, all 1-bit, all 2-bit and all 63-bit-set values, each "
-        "built from value / 8 LE bytes / fields; comparison on all ordered pairs of a boundary set; every case "
+        "built from value / 8 LE bytes / fields; comparison on all ordered pairs of a boundary set; the arbitration itself on a real "
+        "operational CA for all ordered pairs of a set of NAMEs that differ in one field or in two fields in opposite directions; every case "
         "distinct by construction, non-trivial = all (comparison: the two values differ)")
 ASSUME = ["2^64 NAME values are not enumerable: field-wise exhaustive set over 5 backgrounds",
           "the extended-data-page bit is not represented by the PGN class: compared modulo that bit",
@@ -183,6 +227,15 @@ def run(tier, seed):
     bset = sorted(set(bset))
     for i in range(0, len(bset), 16):
         items.append(('name_compare', (bset[i:i + 16], bset), seed))
+    # arbitration on a real CA: names that differ in one field, in two fields in opposite directions, boundary values
+    arb = sorted(set([1, 2, 0x100, 0x201, 0x10000, 0x1FFFFF, 1 << 21, (1 << 21) + 5, 1 << 32, (1 << 32) + 1, (1 << 35) + 2, 1 << 40,
+                      (1 << 40) + 3, (10 << 40) + 200, (20 << 40) + 100, (1 << 49) + 1, (1 << 56) + 7, (1 << 60) + 1, (1 << 63) - 1,
+                      (1 << 62) + 9, 0x00FF00FF00FF00FF & ~(1 << 48), 0x7F00FF00FF00FF00 & ~(1 << 48), 0x0102030405060708 & ~(1 << 48),
+                      0x0807060504030201 & ~(1 << 48), (seed * 0x9E3779B97F4A7C15) & ((1 << 63) - 1) & ~(1 << 48)] +
+                     ([] if tier == 'quick' else [b & ((1 << 63) - 1) for b in bset[::6]])))
+    arb = [x & ((1 << 63) - 1) for x in arb]
+    for i in range(0, len(arb), 2):
+        items.append(('arbitration', arb[i:i + 2], arb + [x | (1 << 63) for x in arb[::3]], seed))
     return run_check(PROP, tier, seed, 'exploration', items, worker, RULE, ASSUME,
                      bounds={'identifiers': '2^29' if tier != 'quick' else '2^18 PGNs x 32 + 8x256x13', 'name_values': len(vals),
                              'comparison_pairs': len(bset) ** 2})
